@@ -1240,3 +1240,78 @@ func TestReplay(t *testing.T) {
 	}
 	stats.Record(t, c, RunCase(c))
 }
+
+// ---------------------------------------------------------------------------
+// deterministic sweep (no random draws): every register x every lane x every
+// operand width of two adjacent full-size wavefronts is written once with a
+// unique value, read back, and its neighbours are read through one-dword
+// operands; the final dump shows that nothing else moved.
+
+func sweepCases() []Case {
+	wfs := []WfCfg{
+		{SIMD: 1, SOff: 4 * (cuSGPRs - 224), VOff: 0, SGPRs: 112, VGPRs: 128},
+		{SIMD: 1, SOff: 4 * (cuSGPRs - 112), VOff: 512, SGPRs: 112, VGPRs: 128},
+	}
+	uniq := func(a, b, c, n int) []byte {
+		out := make([]byte, 4*n)
+		for i := 0; i < n; i++ {
+			binary.LittleEndian.PutUint32(out[4*i:], mix(uint32(a*131+b), uint32(c*17+i))|1)
+		}
+		return out
+	}
+	var cases []Case
+	// SGPRs, all widths, both wavefronts
+	c := Case{Wfs: wfs, Fill: true, FillSeed: 0xC07}
+	for wi := range wfs {
+		for _, rc := range []int{0, 1, 2, 4, 8, 16} {
+			n := width(rc)
+			for idx := 0; idx+n <= wfs[wi].nS(); idx++ {
+				c.Ops = append(c.Ops, Op{Wf: wi, API: "WriteOperandBytes", Reg: "s", Idx: idx, RC: rc, Data: uniq(wi, rc, idx, n)})
+				if idx > 0 {
+					c.Ops = append(c.Ops, Op{Wf: wi, API: "ReadOperand", Reg: "s", Idx: idx - 1, RC: 1 - rc%2})
+				}
+				if idx+n < wfs[wi].nS() {
+					c.Ops = append(c.Ops, Op{Wf: wi, API: "ReadOperandBytes", Reg: "s", Idx: idx + n, RC: 1, N: 4})
+				}
+				// the other wavefront's register of the same name
+				c.Ops = append(c.Ops, Op{Wf: 1 - wi, API: "ReadOperand", Reg: "s", Idx: idx, RC: 0})
+			}
+		}
+	}
+	cases = append(cases, c)
+	// VGPRs, one case per width, both wavefronts
+	for _, rc := range []int{0, 1, 2, 3, 4} {
+		n := width(rc)
+		c := Case{Wfs: wfs, Fill: true, FillSeed: 0xC070 + uint32(rc)}
+		for wi := range wfs {
+			for lane := 0; lane < numLanes; lane++ {
+				for idx := 0; idx+n <= wfs[wi].VGPRs; idx++ {
+					if n <= 2 && (idx+lane)%2 == 0 {
+						c.Ops = append(c.Ops, Op{Wf: wi, API: "WriteOperand", Reg: "v", Idx: idx, RC: rc, Lane: lane, Val: le64(uniq(wi+7, lane, idx, 2))})
+					} else {
+						c.Ops = append(c.Ops, Op{Wf: wi, API: "WriteOperandBytes", Reg: "v", Idx: idx, RC: rc, Lane: lane, Data: uniq(wi+7, lane, idx, n)})
+					}
+					if idx%16 == 0 && idx+n < wfs[wi].VGPRs {
+						c.Ops = append(c.Ops, Op{Wf: wi, API: "ReadOperand", Reg: "v", Idx: idx + n, RC: 1 - rc%2, Lane: lane})
+					}
+					if idx%16 == 8 && lane > 0 {
+						c.Ops = append(c.Ops, Op{Wf: wi, API: "ReadOperandBytes", Reg: "v", Idx: idx, RC: 1, Lane: lane - 1, N: 4})
+					}
+					if idx%16 == 4 {
+						c.Ops = append(c.Ops, Op{Wf: 1 - wi, API: "ReadOperand", Reg: "v", Idx: idx, RC: 0, Lane: lane})
+					}
+				}
+			}
+		}
+		cases = append(cases, c)
+	}
+	return cases
+}
+
+func TestSweep(t *testing.T) {
+	for i, c := range sweepCases() {
+		r := RunCase(c)
+		r.Labels = append(r.Labels, fmt.Sprintf("sweep:%d", i))
+		stats.Record(t, c, r)
+	}
+}
